@@ -195,7 +195,8 @@ fn as_index_range(pos_range: &PosRange, text: &str) -> TextRange {
     let PosRange { start, end } = pos_range;
     let start = get_insertion_index(start, text);
     let end = get_insertion_index(end, text);
-    start..end
+    // a range whose end lies in front of its start is taken as empty
+    start..end.max(start)
 }
 
 /// Converts a text `Position` to an index.
